@@ -593,6 +593,26 @@ def for_to_while(text: str, k: int, seq_tpl: str, elem_tpl: str) -> str:
     pat = text[toks[fi + 1].start:toks[in_i - 1].end]
     it = text[toks[in_i + 1].start:toks[bi - 1].end]
     s_name, i_name = "__s_%d" % k, "__i_%d" % k
+    # integer range `A..B` (exclusive): plain counter loop, no materialised sequence
+    itoks = toks[in_i + 1:bi]
+    dd = None
+    depth = 0
+    for q in range(len(itoks) - 1):
+        if itoks[q].kind == "punct" and itoks[q].text in OPEN:
+            depth += 1
+        elif itoks[q].kind == "punct" and itoks[q].text in CLOSE:
+            depth -= 1
+        elif depth == 0 and itoks[q].text == "." and itoks[q + 1].text == "." and itoks[q + 1].start == itoks[q].end:
+            dd = q
+            break
+    if dd is not None and seq_tpl == "$iter":
+        if dd + 2 < len(itoks) and itoks[dd + 2].text == "=":
+            raise ExtractError("for2while: inclusive ranges are not supported (loop %d)" % k)
+        lo = text[itoks[0].start:itoks[dd - 1].end] if dd > 0 else "0"
+        hi = text[itoks[dd + 2].start:itoks[-1].end]
+        head = "let __hi_%d = %s; let mut %s = %s;\nwhile %s < __hi_%d " % (k, hi, i_name, lo, i_name, k)
+        first = "{ let %s = %s; %s += 1;" % (pat, i_name, i_name)
+        return text[:toks[fi].start] + head + first + text[toks[bi].end:]
     seq = seq_tpl.replace("$iter", it)
     elem = elem_tpl.replace("$s", s_name).replace("$i", i_name)
     head = "let %s = %s; let mut %s: usize = 0;\nwhile %s < %s.len() " % (s_name, seq, i_name, i_name, s_name)
